@@ -229,9 +229,17 @@ fn gen_pair(t: &mut Tape) -> Pair {
         let op = if t.chance(170) { "<==" } else { "<--" };
         match t.below(if allow_decl { 14 } else { 11 }) {
             0 => {
-                forms.push("tuple assignment with _");
-                s.push_str(&format!("    (ta{i}, _, tb{i}) {op} ({e1}, {e2}, {e3});\n"));
-                e.push_str(&format!("    ta{i} {op} {e1};\n    tb{i} {op} {e3};\n"));
+                if t.chance(90) {
+                    // the right-arrow spelling: `(e..) --> (x..)` / `(e..) ==> (x..)`
+                    let rop = if op == "<==" { "==>" } else { "-->" };
+                    forms.push("tuple assignment with _, right-arrow spelling");
+                    s.push_str(&format!("    ({e1}, {e2}, {e3}) {rop} (ta{i}, _, tb{i});\n"));
+                    e.push_str(&format!("    {e1} {rop} ta{i};\n    {e3} {rop} tb{i};\n"));
+                } else {
+                    forms.push("tuple assignment with _");
+                    s.push_str(&format!("    (ta{i}, _, tb{i}) {op} ({e1}, {e2}, {e3});\n"));
+                    e.push_str(&format!("    ta{i} {op} {e1};\n    tb{i} {op} {e3};\n"));
+                }
             }
             1 => {
                 forms.push("tuple assignment of variables");
